@@ -2,7 +2,7 @@
    documents (C19) and the rendering of a Duration from its exact count (C11). Written from the property text and the
    documentation, not from the implementation. *)
 From Coq Require Import ZArith Bool List.
-From HF Require Import GenText Text TextFmt.
+From HF Require Import GenText Text Epoch TextFmt.
 Import ListNotations.
 Open Scope Z_scope.
 
@@ -34,3 +34,11 @@ Definition spec_display_duration (v : Z) : str :=
   (if v <? 0 then [45] else []) ++
   match parts with [] => [] | p :: r => p ++ flat_map (fun q => 32 :: q) r end.
 
+
+(* the text of the property: YYYY-MM-DDTHH:MM:SS, nine fractional digits only when non-zero, then the scale name *)
+Definition spec_scale_name (t : timescale) : str :=
+  match t with TAI => [84;65;73] | TT => [84;84] | ET => [69;84] | TDB => [84;68;66] | UTC => [85;84;67] | GPST => [71;80;83;84]
+             | GST => [71;83;84] | BDT => [66;68;84] | QZSST => [81;90;83;83;84] end.
+Definition spec_epoch_text (y m d h mi s ns : Z) (t : timescale) : str :=
+  fmt_int 4 y ++ [45] ++ fmt_int 2 m ++ [45] ++ fmt_int 2 d ++ [84] ++ fmt_int 2 h ++ [58] ++ fmt_int 2 mi ++ [58] ++ fmt_int 2 s ++
+  (if ns =? 0 then [] else [46] ++ fmt_int 9 ns) ++ [32] ++ spec_scale_name t.
